@@ -520,7 +520,8 @@ def dataCountSection (m : RawModule) : P RawModule := do
 
 /-! ### custom sections, name section (reader.c:309-556) -/
 
-def strBytes (s : String) : Bytes := s.toUTF8.toList
+/-- The bytes of an ASCII C string literal (the two special section names are ASCII). -/
+def strBytes (s : String) : Bytes := s.toList.map (fun c => UInt8.ofNat c.toNat)
 
 /-- `wasmFunctionNamesRemoveDuplicates` on the first `len` entries: `strcmp` on a NULL entry is undefined as
     soon as the comparator runs (two or more entries); names occurring more than once are cleared. -/
